@@ -154,7 +154,7 @@ func (c *compiler) compile(o interface{}) error {
 		if _, alreadyCompiled := c.pool[x]; !alreadyCompiled {
 			c.pool[x] = struct{}{}
 			if _, isCase := o.(*ChoiceCase); !isCase {
-				if err := uniqueNodeNames(x, x.DataDefinitions(), make(map[string]struct{})); err != nil {
+				if err := uniqueNodeNames(x, x.DataDefinitions(), make(map[string]struct{}), make(map[*Choice]struct{})); err != nil {
 					return err
 				}
 			}
@@ -192,11 +192,16 @@ func (c *compiler) compile(o interface{}) error {
 // uniqueNodeNames checks the nodes of a parent including the ones inside the cases of its
 // choices, they share one namespace and a uses may have brought them in after the parent
 // indexed its children
-func uniqueNodeNames(parent HasDataDefinitions, defs []Definition, seen map[string]struct{}) error {
+func uniqueNodeNames(parent HasDataDefinitions, defs []Definition, seen map[string]struct{}, visited map[*Choice]struct{}) error {
 	for _, d := range defs {
 		if ch, isChoice := d.(*Choice); isChoice {
+			if _, again := visited[ch]; again {
+				// a grouping that uses itself inside a case of its choice
+				continue
+			}
+			visited[ch] = struct{}{}
 			for _, id := range ch.CaseIdents() {
-				if err := uniqueNodeNames(parent, ch.cases[id].DataDefinitions(), seen); err != nil {
+				if err := uniqueNodeNames(parent, ch.cases[id].DataDefinitions(), seen, visited); err != nil {
 					return err
 				}
 			}
